@@ -7,7 +7,6 @@ from typing import Union
 
 import numpy
 
-from .iterators import peekable_iter
 
 # Expression formatting
 
@@ -20,6 +19,7 @@ def format_expr(expr: Union[str, ast.AST]) -> str:
 # Variable sanitization
 
 
+IDENTIFIER_MATCHER = re.compile(r"[^\W\d]\w*")
 UNQUOTED_BACKTICK_MATCHER = re.compile(
     r"(`[^`]*`|\\\"|\"(?:\\.|[^\"\\])*\"|\\'|'(?:\\.|[^'\\])*'|`)"
 )
@@ -52,7 +52,16 @@ def sanitize_variable_names(
         The sanitized expression.
     """
 
-    expr_parts = peekable_iter(UNQUOTED_BACKTICK_MATCHER.split(expr))
+    expr_parts = UNQUOTED_BACKTICK_MATCHER.split(expr)
+
+    # Identifiers that the expression itself uses outside of back-quotes: an
+    # alias must not coincide with one of them (e.g. `a b` next to a_b).
+    used_names = {
+        name
+        for expr_part in expr_parts
+        if not (len(expr_part) >= 2 and expr_part[0] == expr_part[-1] == "`")
+        for name in IDENTIFIER_MATCHER.findall(expr_part)
+    }
 
     sanitized_expr = []
 
@@ -62,11 +71,21 @@ def sanitize_variable_names(
             # are not mistaken for string delimiters).
             variable_name = expr_part[1:-1]
             new_name = sanitize_variable_name(variable_name, env, template=template)
-            if aliases.get(new_name, variable_name) != variable_name:
+
+            def is_taken(alias: str) -> bool:
+                return aliases.get(alias, variable_name) != variable_name or (
+                    alias != variable_name and alias in used_names
+                )
+
+            if is_taken(new_name):
                 # Different names can sanitize to the same alias (e.g. `a b`
                 # and `a+b`); keep them distinct.
+                if new_name in used_names and variable_name in env:
+                    # (`sanitize_variable_name` has just bound that alias in
+                    # `env`, where it would shadow the expression's own name)
+                    del env[new_name]
                 base_name, suffix = new_name, 1
-                while aliases.get(new_name, variable_name) != variable_name:
+                while is_taken(new_name):
                     suffix += 1
                     new_name = f"{base_name}_{suffix}"
                 if variable_name in env:
